@@ -13,7 +13,23 @@ from ..cfg import calls_at, node_exprs
 from ..core import Checker
 from ..loader import Func, norm, walk_expr, walk_own
 
-_ONESHOT_CALLS = {"iter", "map", "filter", "zip", "reversed", "enumerate"}
+_ONESHOT_CALLS = {"iter", "map", "filter", "zip", "reversed", "enumerate", "filterfalse", "takewhile", "dropwhile", "starmap", "chain", "islice", "compress", "accumulate"}
+
+
+def _gen_callee(ck, fn, v) -> bool:
+    """v is a call that some repository *generator* function / method may answer (its result is a one-shot iterator)"""
+    if not isinstance(v, ast.Call):
+        return False
+    try:
+        cands = ck.res.resolve(fn, v)
+    except Exception:  # noqa: BLE001
+        return False
+    for cal in cands:
+        if getattr(cal.module, "trusted", False):
+            continue
+        if any(isinstance(y, (ast.Yield, ast.YieldFrom)) for y in walk_own(cal.node)):
+            return True
+    return False
 _MUTATORS = {"append", "extend", "add", "update", "insert", "setdefault", "pop", "remove", "clear", "appendleft", "discard", "popitem", "sort"}
 
 
@@ -50,7 +66,7 @@ def check_oneshot(ck: Checker, rule: str, fns: Iterable[Func]) -> int:
             v = a.value
             if not isinstance(tg, ast.Name) or v is None:
                 continue
-            lazy = isinstance(v, ast.GeneratorExp) or (isinstance(v, ast.Call) and isinstance(v.func, ast.Name) and v.func.id in _ONESHOT_CALLS)
+            lazy = isinstance(v, ast.GeneratorExp) or (isinstance(v, ast.Call) and isinstance(v.func, ast.Name) and v.func.id in _ONESHOT_CALLS) or _gen_callee(ck, fn, v)
             if not lazy:
                 continue
             n_checked += 1
@@ -87,7 +103,9 @@ def check_oneshot(ck: Checker, rule: str, fns: Iterable[Func]) -> int:
                        construct=f"{tg.id} = {norm(v)[:40]} / consumed in loop")
             twice = False
             for x in uses:
-                r = g.reach([x.id], skip_node=lambda y, d=d: y.id == d.id)
+                if node_defines(x, tg.id):
+                    continue  # `it = wrap(it)`: the iterator is handed on, later readers see the new binding
+                r = g.reach([x.id], skip_node=lambda y, d=d, x=x: y.id == d.id or (y.id != x.id and bool(node_defines(y, tg.id))))
                 if any(y.id in r and y.id != x.id for y in uses):
                     twice = True
             if not bad_loop:
